@@ -15,13 +15,22 @@ pub struct Traj {
     pub src: Planted,
     pub step_rules: Vec<(f64, f64)>, // (max_step_fraction, linesearch_backtrack_step)
     pub kmax: u32,
+    /// the objective (P, q) is multiplied by each of these factors in turn
+    pub obj_scales: Vec<f64>,
 }
 
 impl Traj {
     fn decode(&self, id: u64) -> (Prob, SettingsSpec) {
         let mut d = Digits(id);
         let (msf, bt) = *d.pick(&self.step_rules);
-        let (p, mut ss) = self.src.case_of(d.0);
+        let sc = *d.pick(&self.obj_scales);
+        let (mut p, mut ss) = self.src.case_of(d.0);
+        for v in p.q.iter_mut() {
+            *v *= sc;
+        }
+        for v in p.p.a.iter_mut() {
+            *v *= sc;
+        }
         ss.max_step_fraction = msf;
         ss.linesearch_backtrack_step = bt;
         (p, ss)
@@ -37,7 +46,7 @@ impl Space for Traj {
         format!("trajectory-{}", self.src.name())
     }
     fn size(&self) -> u64 {
-        self.src.size() * self.step_rules.len() as u64
+        self.src.size() * self.step_rules.len() as u64 * self.obj_scales.len() as u64
     }
     fn describe(&self, id: u64) -> Value {
         let (p, ss) = self.decode(id);
@@ -247,12 +256,14 @@ pub fn spaces(tier: &str, _seed: u64) -> Vec<Box<dyn Space>> {
                 src: Planted::new(l.clone(), n, s0.clone(), Judge::C04, if thorough { 1 } else { 0 }, vec![5], "default").with_loose_rows(),
                 step_rules: rules.clone(),
                 kmax: if thorough { 60 } else { 25 },
+                obj_scales: vec![1.0],
             }));
         }
         v.push(Box::new(Traj {
             src: Planted::new(l, n, s0.clone(), Judge::C04, 1, xids, "default"),
             step_rules: rules.clone(),
             kmax: if thorough { 60 } else { 25 },
+            obj_scales: if li == 3 || li == 2 { vec![1.0, 1e3] } else { vec![1.0] },
         }));
     }
     v
